@@ -16,8 +16,10 @@ def classify_known(case, meta, finding):
 def generate(rng, tier):
     # the C06 oracle searches (position, expectation) candidates per case: smaller volume than the other engine checks
     if tier == "quick":
-        return engcommon.generate(rng, "quick", enum_size=4, enum_len=3, sample5=300, n_random=800, named_share=0.5)
-    return engcommon.generate(rng, "quick", enum_size=5, enum_len=4, sample5=2000, n_random=6000, named_share=0.5)
+        return engcommon.generate(rng, "quick", enum_size=4, enum_len=3, sample5=300, n_random=600, named_share=0.5) + \
+            engcommon.error_cases(rng, 700)
+    return engcommon.generate(rng, "quick", enum_size=5, enum_len=4, sample5=2000, n_random=6000, named_share=0.5) + \
+        engcommon.error_cases(rng, 8000)
 
 
 MANIFEST = {
